@@ -288,6 +288,25 @@ def new_value(bc, mul, add):
 
 
 def check_update(case):
+    try:
+        return _check_update(case)
+    finally:
+        import numba as nb
+
+        if nb.config.DISABLE_JIT:
+            # Artefact of the interpreted numba code (NUMBA_DISABLE_JIT=1, our breadth mode): a cached
+            # "compiled" operator is a python closure that reads the condition OBJECT when it is called, so after
+            # this case changed the values of its conditions the cache entry made for the old values returns
+            # results for the new ones - to the next case that asks for equal conditions (found when the
+            # shrinker ran two such cases in a row).  Compiled operators freeze the values when they are built
+            # (checked: with the JIT enabled a fresh equal condition gets correct results), so the entries
+            # of this case are dropped instead of reporting the artefact.
+            be = get_backend("numba")
+            if hasattr(be, "_cache_methods"):
+                be._cache_methods.clear()
+
+
+def _check_update(case):
     """History on ONE Boundaries object (after missed seed C03-6): the conditions are used through some
     routes, then their values are changed - with the documented ``value`` setter or, for linked values, by
     writing into the linked array - and every route is taken again.  Reference: a fresh, never used
@@ -301,8 +320,25 @@ def check_update(case):
     if not consts:
         return {"nt": False, "labels": ["no-constant-condition"]}
     linked = []
+    import numba as nb
+
+    # (float32 arrays linked to conditions of a float64 field: only with the interpreted numba code - compiled,
+    # the setter fails to type, a loud limitation)
+    link_f4 = how == "link" and case.get("link_dtype") == "f4" and case["dtype"] == "f8" and bool(nb.config.DISABLE_JIT)
+    kept_ok = False
+    if how == "link" and not nb.config.DISABLE_JIT and grid.num_axes < 2:
+        # compiled setters do not type for 0-d linked arrays (boundaries of grids with one axis); loud
+        how = "setter"
     if how == "link":
-        from pde.grids.boundaries.local import MixedBC
+        from pde.grids.boundaries.local import ConstBC1stOrderBase, MixedBC
+
+        # operators/setters built before the update follow a linked array only for first-order conditions
+        # (the compiled setter of second-order conditions takes the values when it is built)
+        kept_ok = all(isinstance(bc, ConstBC1stOrderBase) for bc in consts)
+        # float32 arrays: not for Robin conditions (their compiled coefficients are then computed in single
+        # precision: 1e-9 relative, a precision matter and not a disagreement of routes)
+        if link_f4 and any(isinstance(bc, MixedBC) for bc in consts):
+            link_f4 = False
 
         # linked Robin conditions: only with a scalar `const` (the compiled setter of a linked MixedBC
         # treats `const` as one number; the combination with a tensor-valued const is not supported)
@@ -312,20 +348,25 @@ def check_update(case):
         for bc in consts:
             # (the value of an automatic condition is an integer array: the linked array gets the data type
             # of the field, otherwise writing the new value would truncate it)
-            arr = np.array(full_value(bc, bc.value), dtype=np.result_type(np.asarray(bc.value).dtype, data.dtype),
-                           order="C")
+            ldt = np.result_type(np.asarray(bc.value).dtype, data.dtype)
+            if link_f4:
+                ldt = np.float32  # (after missed seed C03-7: the compiled getter copied non-float64 linked arrays)
+            arr = np.array(full_value(bc, bc.value), dtype=ldt, order="C")
             bc.link_value(arr)
             linked.append(arr)
     # ---- first use (warms whatever the conditions or the grid remember) --------------------------
     warm = case["warm"]
     if "field" in warm:
         field.copy().apply_operator(name, bcs, args={"t": t}, **opts)
+    kept_op = kept_setter = None
     if "numba" in warm:
-        grid.make_operator(name, bcs, backend="numba", **opts)(data.copy(), args=numba_args(t))
+        kept_op = grid.make_operator(name, bcs, backend="numba", **opts)
+        kept_op(data.copy(), args=numba_args(t))
     if "setter" in warm:
         a = field.copy()
         a.set_ghost_cells(bcs, args={"t": t})
-        get_backend("numba").make_ghost_cell_setter(bcs)(a._data_full, args=numba_args(t))
+        kept_setter = get_backend("numba").make_ghost_cell_setter(bcs)
+        kept_setter(a._data_full, args=numba_args(t))
     scipy_ok = gspec["cls"] in ("unit", "cart") and name in gf.SCIPY_OPS and \
         set(opts) <= ({"method"} if name in ("gradient", "divergence") else set())
     if "scipy" in warm and scipy_ok:
@@ -355,6 +396,8 @@ def check_update(case):
         fresh, _ = gb.make_boundaries(case["bc"], gspec, grid, case["dtype"])
     for i, (bc, ref) in enumerate(zip(consts, const_conditions(fresh))):
         val = new_value(ref, mul, add)
+        if link_f4:
+            val = np.asarray(val).astype(np.float32).astype(float)  # what a float32 array holds exactly
         ref.value = val
         if how == "link":
             linked[i][...] = full_value(bc, val)
@@ -371,6 +414,19 @@ def check_update(case):
     r1 = field.copy().apply_operator(name, bcs, args={"t": t}, **opts).data
     compare(tag + "field.apply_operator", ref, r1, tol, case)
     routes.append("U1")
+    if how == "link":
+        # linked values are read on every call: operators and setters built BEFORE the array was written to
+        # follow the update as well
+        if kept_op is not None and kept_ok:
+            compare(tag + "kept make_operator[numba]", ref, kept_op(data.copy(), args=numba_args(t)), tol, case)
+            routes.append("U2kept")
+        if kept_setter is not None and kept_ok:
+            fk = field.copy()
+            kept_setter(fk._data_full, args=numba_args(t))
+            outk = np.full_like(ref, np.nan)
+            grid.make_operator_no_bc(name, backend="numba", **opts)(fk._data_full, outk)
+            compare(tag + "kept make_ghost_cell_setter+make_operator_no_bc", ref, outk, tol, case)
+            routes.append("U5kept")
     r2 = grid.make_operator(name, bcs, backend="numba", **opts)(data.copy(), args=numba_args(t))
     compare(tag + "make_operator[numba]", ref, r2, tol, case)
     routes.append("U2")
@@ -399,7 +455,7 @@ def check_update(case):
             compare(tag + "sparse-matrix", ref, r6, gf.op_tolerance(gspec, "laplace", fr._data_full, rel=1e-11), case)
             routes.append("U6")
     rec = record(case, style, routes)
-    rec["labels"] += [f"how:{how}"] + [f"warm:{w}" for w in warm] + [f"updated-conditions:{min(len(consts), 4)}"]
+    rec["labels"] += [f"how:{how}" + (":float32" if link_f4 else "")] + [f"warm:{w}" for w in warm] + [f"updated-conditions:{min(len(consts), 4)}"]
     rec["key"] = [rec["key"], how, sorted(warm), mul, add]
     return rec
 
@@ -407,7 +463,8 @@ def check_update(case):
 @st.composite
 def update_cases(draw, jit=False):
     case = draw(cases(max_cells=4 if jit else 6, jit=jit))
-    case["how"] = draw(st.sampled_from(["setter", "setter", "link"]))
+    case["how"] = draw(st.sampled_from(["setter", "link", "link"]))
+    case["link_dtype"] = draw(st.sampled_from(["same", "f4"]))
     case["warm"] = sorted(draw(st.sets(st.sampled_from(["field", "numba", "setter", "scipy", "matrix", "virtual"]),
                                        min_size=1, max_size=4)))
     case["mul"] = draw(st.sampled_from([-0.5, 2.0, 0.0, 1.5]))
